@@ -181,8 +181,11 @@ class Inotify:
         # Default to all events
         if event_mask is None:
             event_mask = WATCHDOG_ALL_EVENTS
-            if follow_symlink:
-                event_mask &= ~InotifyConstants.IN_DONT_FOLLOW
+        # Whether links are followed is the watch's own setting, also for a mask derived from an event filter
+        if follow_symlink:
+            event_mask &= ~InotifyConstants.IN_DONT_FOLLOW
+        else:
+            event_mask |= InotifyConstants.IN_DONT_FOLLOW
         self._event_mask = event_mask
         self._follow_symlink = follow_symlink
         self._is_recursive = recursive
